@@ -40,6 +40,8 @@ Base == {
   [id |-> "struct:funcs", kind |-> "fstruct", fields |-> << <<"F", SB("x")>> >>, structs |-> {}],
   (* map[interface{}]string: any key may be asked for, only "a" is there; a slice or hash can never be a key *)
   Mapc("map:vs:a=b", "any", << <<SB("a"), SB("b")>> >>),
+  (* keys of different types whose string forms coincide: the int 1 and the string "1" are two entries *)
+  Mapc("map:mixed", "any", << <<IntV(1), SB("int")>>, <<SB("1"), SB("str")>>, <<SB("true"), SB("strtrue")>>, <<Bool(TRUE), SB("bool")>> >>),
   (* named container types that also have a String method (type tagList []string, type strMap map[string]string): containers still *)
   Seqc("tags:go,twig,templates", <<SB("go"), SB("twig"), SB("templates")>>), Mapc("smap:k=v,j=w", "string", << <<SB("k"), SB("v")>>, <<SB("j"), SB("w")>> >>) }
 Ptrs == {[d EXCEPT !.id = "ptr:" \o d.id] : d \in {b \in Base : b.id \in {"slice:int:4,5,6", "slice:string:a,b", "map:ss:a=x,b=y",
@@ -94,6 +96,8 @@ GetAttrRef(d, key, args) ==
          THEN (IF \E q \in 1..Len(d.ents) : d.ents[q][1] = key THEN Elem(d.ents[CHOOSE q \in 1..Len(d.ents) : d.ents[q][1] = key][2]) ELSE ErrR)
          ELSE IF d.keyt = "bool" /\ key.t = "bool"
          THEN (IF \E q \in 1..Len(d.ents) : d.ents[q][1] = key THEN Elem(d.ents[CHOOSE q \in 1..Len(d.ents) : d.ents[q][1] = key][2]) ELSE ErrR)
+         ELSE IF d.keyt = "any" /\ key.t = "num" /\ (\E q \in 1..Len(d.ents) : d.ents[q][1] = key)
+         THEN Either                                            \* a Go int key and a template number (float64): not decided
          ELSE IF d.keyt = "any"
          THEN (IF \E q \in 1..Len(d.ents) : d.ents[q][1] = key THEN Elem(d.ents[CHOOSE q \in 1..Len(d.ents) : d.ents[q][1] = key][2]) ELSE ErrR)
          ELSE IF d.keyt = "int" /\ key.t = "num" THEN           \* every number in a template is a float64: an integral one is a usable key
